@@ -1,17 +1,32 @@
 (** C07 -- Commands synthesised by the filter are well-formed plain-decimal G-code.
-    PARTIAL: proved for ALL digit strings and ALL decimal exponents: the text produced for a number is plain decimal --
-    the firmware-style (RS274) number reader consumes it completely, so it contains no exponent, no 'inf'/'nan' and
-    nothing else after the digits.  That the text denotes exactly the tracked value, and the one-code / distinct-letter
-    shape of whole commands, are decided on the implementation by the oracle of this check (independent reader, exact
-    comparison) and on the model by the character-for-character correspondence; their Coq proofs are not finished. *)
-From Coq Require Import ZArith String Ascii List Bool.
-From ER Require Import Model.Lexer Model.Words Model.Format Proofs.WordsProps Proofs.FormatProps.
+    Proved for ALL digit strings and ALL decimal exponents: the text produced for a number is plain decimal -- the
+    firmware-style (RS274) number reader consumes it completely (no exponent, no 'inf'/'nan', nothing left over) -- and it
+    denotes exactly (-1)^neg * 0.ds * 10^k.  Whole commands: the parameter text of ANY rendered word list reads back
+    (tokenizer of Model/Words.v) as exactly those letters with exactly those number texts and no remainder, and the
+    argument list of every merged deferred command that can be pending has pairwise distinct non-empty labels.
+    PARTIAL: that the fixed templates (G92 E / G0 F X Y / G0 F Z / G1 F E / G10 / G11) use distinct letters is read off
+    `render` and checked by the oracle (independent reader) and the character-for-character correspondence. *)
+From Coq Require Import QArith ZArith String Ascii List Bool.
+From ER Require Import Base.Num Model.Lexer Model.Words Model.Format Model.Axis Model.Filter Proofs.WordsProps Proofs.FormatProps Proofs.Deferred Proofs.CommandShape.
 Import ListNotations.
 Local Open Scope string_scope.
 
-Theorem C07_partial_number_plain_decimal : forall neg ds k, all_digits ds -> ds <> "" ->
+Theorem C07_number_plain_decimal : forall neg ds k, all_digits ds -> ds <> "" ->
   number (layout neg ds k) = Some (layout neg ds k, "").
 Proof. exact layout_is_plain_decimal. Qed.
+
+(** ... and its value, as the firmware-style reader computes it, is exactly the value the digits stand for *)
+Theorem C07_number_exact : forall neg ds k, all_digits ds -> ds <> "" -> number_value (layout neg ds k) == dec_value neg ds k.
+Proof. exact layout_value_exact. Qed.
+
+(** whole commands: the rendered words read back as themselves -- letter by letter, text by text, nothing left over *)
+Theorem C07_words_read_back : forall ws, words_ok ws -> items (render_words ws) = (read_back ws, None).
+Proof. exact generated_words_read_back. Qed.
+
+(** merged deferred commands: distinct, non-empty parameter labels, after any sequence of deferred commands *)
+Theorem C07_merged_labels_distinct : forall (T : Type) (N : Num T) modef (seen : list (xmode * icmd T)) g args,
+  consistent modef seen -> assoc g (pend_after seen) = Some (PArgs args) -> NoDup (map fst args) /\ ~ In "" (map fst args).
+Proof. exact @merged_labels_distinct. Qed.
 
 (** zero is rendered "0.0" / "-0.0" *)
 Theorem C07_zero : layout false "" 0 = "0.0" /\ layout true "" 0 = "-0.0".
@@ -22,6 +37,9 @@ Proof. split; reflexivity. Qed.
 Theorem C07_exponent_form_refuted : number (repr_exponent false "1" (-4)) = Some ("1", "e-05").
 Proof. exact exponent_form_refuted. Qed.
 
-Print Assumptions C07_partial_number_plain_decimal.
+Print Assumptions C07_number_plain_decimal.
+Print Assumptions C07_number_exact.
+Print Assumptions C07_words_read_back.
+Print Assumptions C07_merged_labels_distinct.
 Print Assumptions C07_zero.
 Print Assumptions C07_exponent_form_refuted.
